@@ -23,6 +23,7 @@ func init() {
 		},
 		Run: runC18,
 		Controls: []Control{
+			{Name: "entry-deleted-after-the-send", File: "protocols/bgp/server/update_sender.go", Old: "\t\t\tdelete(u.toSend, key)\n\t\t\tu.sendMu.Lock()\n\t\t\tu.toSendMu.Unlock()\n\n\t\t\tu.sendUpdates(pathAttrs, updatesPrefixes, pathID)\n\t\t\tu.sendMu.Unlock()\n\t\t\tu.toSendMu.Lock()", New: "\t\t\tu.sendMu.Lock()\n\t\t\tu.toSendMu.Unlock()\n\n\t\t\tu.sendUpdates(pathAttrs, updatesPrefixes, pathID)\n\t\t\tu.sendMu.Unlock()\n\t\t\tu.toSendMu.Lock()\n\t\t\tdelete(u.toSend, key)", Expect: "entry-taken-in-one-critical-section"},
 			{Name: "serializer-rejects-full-message", File: "protocols/bgp/packet/update.go", Old: "\tif totalLength > 4096 {", New: "\tif totalLength >= MaxLen {", Expect: "full-message-not-rejected"},
 			{Name: "refactor-gate-uses-constant", Silent: true, File: "protocols/bgp/packet/update.go", Old: "\tif totalLength > 4096 {", New: "\tif totalLength >= MaxLen+1 {"},
 			{Name: "budget-from-estimate-only", File: "protocols/bgp/server/update_sender.go", Old: "\tif wireLen := pathAttrs.SerializedLength(u.options); wireLen > attrLen {\n\t\tattrLen = wireLen\n\t}\n", New: "", Expect: "reserve-covers-attributes"},
@@ -145,6 +146,7 @@ func runC18(c *core.Ctx) {
 		c.Check(sizeGateMax[c] == 4096, "full-message-not-rejected", f.Name()+" lets a message of exactly 4096 octets through", f.Decl.Pos(),
 			fmt.Sprintf("the size test of SerializeUpdate admits messages of at most %d octets; the update sender fills messages up to 4096: a completely filled UPDATE is rejected by the serializer and silently dropped, its prefixes are never announced", sizeGateMax[c]))
 	}
+	senderEntryCriticalSection(c)
 	upd := "protocols/bgp/server.(*UpdateSender)."
 	getBudget := c.MustFunc(upd + "getBudget")
 	gui := c.MustFunc(upd + "_getUpdateInformation")
